@@ -57,6 +57,9 @@ type Check struct {
 	// PanicIsViolation: a panic inside code under test counts as a violation of
 	// this property (default: harness trouble, exit 2).
 	PanicIsViolation bool
+	// HangIsViolation: a plan that does not finish within HangS seconds counts
+	// as a violation "<ID>/operation-never-returns" (default: harness trouble).
+	HangIsViolation bool
 }
 
 var registry = map[string]*Check{}
